@@ -45,6 +45,28 @@ static u64 bucket(u64 max_node, u64 s, int mode = 0)
     return arr[mode]->get(s).node_size();
 }
 
+// list arrays with static storage duration, constructed during the static initialisation of this translation unit (what a
+// namespace-scope memory_pool_collection does): bucket selection must not depend on when the object was built
+template <class FL, class AP>
+struct static_array
+{
+    alignas(16) char buf[sizeof(FL) * 140 + 64];
+    fixed_memory_stack st;
+    free_list_array<FL, AP> arr;
+    static_array() : st(buf), arr(st, buf + sizeof buf, 64) {}
+};
+static static_array<free_memory_list, identity_access_policy> g_s00;
+static static_array<free_memory_list, log2_access_policy> g_s01;
+static static_array<ordered_free_memory_list, identity_access_policy> g_s10;
+static static_array<ordered_free_memory_list, log2_access_policy> g_s11;
+static static_array<small_free_memory_list, identity_access_policy> g_s20;
+static static_array<small_free_memory_list, log2_access_policy> g_s21;
+static u64 bucket_static(u64 lt, u64 pol, u64 s)
+{
+    if (pol == 0) return lt == 0 ? g_s00.arr.get(s).node_size() : lt == 1 ? g_s10.arr.get(s).node_size() : g_s20.arr.get(s).node_size();
+    return lt == 0 ? g_s01.arr.get(s).node_size() : lt == 1 ? g_s11.arr.get(s).node_size() : g_s21.arr.get(s).node_size();
+}
+
 int main(int argc, char** argv)
 {
     std::ios::sync_with_stdio(false);
@@ -106,6 +128,7 @@ int main(int argc, char** argv)
                      : a[0] == 1 ? bucket<ordered_free_memory_list, log2_access_policy>(a[2], a[3], mode)
                                  : bucket<small_free_memory_list, log2_access_policy>(a[2], a[3], mode);
         }
+        else if (fn == "bucket_static") r = bucket_static(a[0], a[1], a[3]);      // a[2] is 64
         else { std::printf("? %s\n", fn.c_str()); continue; }
         std::printf("%s", fn.c_str());
         for (auto x : a) std::printf(" %llx", x);
